@@ -145,6 +145,79 @@ def reqEnv (exro woDisabled absent : Bool) (p : RS) : InjEnv :=
   { asreq := true, asrep := false, ro := p.ro, wo := p.wo, roDisabled := exro, woDisabled := woDisabled,
     hasDflt := p.dflt.isSome, absent := absent, defaultsSet := true }
 
+/-! ### From `openapi3filter.Options` to the settings of the visit (table `C06VisitOpts`)
+
+`ValidateRequestBody` builds the option list of `VisitJSON` statement by statement; each row says under which
+condition on `Options` one constructor is passed. The rows are data; `settingsOf (optsPassed rows o)` is what the
+validator then works with. -/
+
+inductive OptCond
+  | always
+  | ifOpt (o : String)
+  | ifNotOpt (o : String)
+  | ifSet (o : String)
+  | visit                 -- the call of VisitJSON itself (closes the list)
+  | unrecognised
+  deriving DecidableEq, Repr
+
+/-- the fields of `openapi3filter.Options` the conditions may look at -/
+structure FilterOpts where
+  exro : Bool            -- ExcludeReadOnlyValidations
+  exwo : Bool            -- ExcludeWriteOnlyValidations
+  skipDefaults : Bool    -- SkipSettingDefaults
+  multi : Bool           -- MultiError
+  customErr : Bool       -- customSchemaErrorFunc != nil
+  regex : Bool           -- RegexCompiler != nil
+  deriving DecidableEq, Repr
+
+def FilterOpts.get (o : FilterOpts) (name : String) : Option Bool :=
+  if name = "ExcludeReadOnlyValidations" then some o.exro
+  else if name = "ExcludeWriteOnlyValidations" then some o.exwo
+  else if name = "SkipSettingDefaults" then some o.skipDefaults
+  else if name = "MultiError" then some o.multi
+  else if name = "customSchemaErrorFunc" then some o.customErr
+  else if name = "RegexCompiler" then some o.regex
+  else none
+
+def OptCond.holds (o : FilterOpts) : OptCond → Bool
+  | .always => true
+  | .ifOpt n => (o.get n).getD false
+  | .ifNotOpt n => !((o.get n).getD true)
+  | .ifSet n => (o.get n).getD false
+  | .visit => false
+  | .unrecognised => false
+
+/-- names of the option constructors passed to `VisitJSON` -/
+def optsPassed (rows : List (OptCond × String)) (o : FilterOpts) : List String :=
+  (rows.filter (fun r => r.1.holds o)).map (·.2)
+
+/-- the fields of `schemaValidationSettings` the request-side model depends on -/
+structure VisitSettings where
+  asreq : Bool
+  asrep : Bool
+  defaultsSet : Bool
+  roDisabled : Bool
+  woDisabled : Bool
+  multi : Bool
+  deriving DecidableEq, Repr
+
+def settingsOf (fns : List String) : VisitSettings :=
+  { asreq := fns.contains "VisitAsRequest", asrep := fns.contains "VisitAsResponse",
+    defaultsSet := fns.contains "DefaultsSet", roDisabled := fns.contains "DisableReadOnlyValidation",
+    woDisabled := fns.contains "DisableWriteOnlyValidation", multi := fns.contains "MultiErrors" }
+
+/-- the rows of the pinned source (obligation `visitOpts_is_source`) -/
+def optRowsSrc : List (OptCond × String) :=
+  [(.always, "VisitAsRequest"), (.ifNotOpt "SkipSettingDefaults", "DefaultsSet"), (.ifOpt "MultiError", "MultiErrors"),
+   (.ifSet "customSchemaErrorFunc", "SetSchemaErrorMessageCustomizer"),
+   (.ifOpt "ExcludeReadOnlyValidations", "DisableReadOnlyValidation"),
+   (.ifSet "RegexCompiler", "SetSchemaRegexCompiler"), (.visit, "VisitJSON")]
+
+/-- the environment of the injection guard under given settings -/
+def envOf (st : VisitSettings) (absent : Bool) (p : RS) : InjEnv :=
+  { asreq := st.asreq, asrep := st.asrep, ro := p.ro, wo := p.wo, roDisabled := st.roDisabled,
+    woDisabled := st.woDisabled, hasDflt := p.dflt.isSome, absent := absent, defaultsSet := st.defaultsSet }
+
 /-! ### The body-decoder registry as state (`RegisterBodyDecoder` / `UnregisterBodyDecoder`, a process-wide Go map)
 
 Every function of the model takes the registry as a parameter; here are the operations that change it between
